@@ -4,9 +4,11 @@ import ZvbiModel.Demux.CorFrame
 -/
 namespace Zvbi.Demux
 
+variable {cfg : SrcCfg}
+
 /-- `dx->sliced[64]` never overflows -/
 theorem extractLoop_lines : ∀ (fuel : Nat) (f : Frame) (d : Bytes), f.lines.length ≤ 64 →
-    (extractLoop fuel f d).1.lines.length ≤ 64 := by
+    (extractLoop cfg fuel f d).1.lines.length ≤ 64 := by
   intro fuel
   induction fuel with
   | zero => intro f d h; exact h
@@ -23,14 +25,14 @@ theorem extractLoop_lines : ∀ (fuel : Nat) (f : Frame) (d : Bytes), f.lines.le
         by_cases hl : len + 2 > (id :: len :: t).length
         · rw [if_pos hl]; exact h
         · rw [if_neg hl]
-          cases hdu : dataUnit f (id :: len :: t) id len with
+          cases hdu : dataUnit cfg f (id :: len :: t) id len with
           | skip => exact ih _ _ h
           | store f' => exact ih _ _ (dataUnit_store_props f _ id len f' hdu).2
           | fail f' r =>
             show f'.lines.length ≤ 64
             rw [dataUnit_fail_lines f _ id len f' r hdu]; exact h
 
-theorem extract_lines (f : Frame) (d : Bytes) (h : f.lines.length ≤ 64) : (extract f d).1.lines.length ≤ 64 := by
+theorem extract_lines (f : Frame) (d : Bytes) (h : f.lines.length ≤ 64) : (extract cfg f d).1.lines.length ≤ 64 := by
   unfold extract
   split
   · exact h
@@ -39,8 +41,8 @@ theorem extract_lines (f : Frame) (d : Bytes) (h : f.lines.length ≤ 64) : (ext
 /-- when `extract_data_units` said -1 at `rest`, every unit before `rest` was stepped over without
 looking at the frame: any other frame arrives at `rest` too, changed only in `last_data_unit_id` -/
 theorem extractLoop_restart : ∀ (fuel : Nat) (f : Frame) (d : Bytes) (f1 : Frame) (rest : Bytes),
-    d.length < fuel → f.nDu = 0 → extractLoop fuel f d = (f1, .newFrame, rest) →
-    ∃ k, rest.length < k ∧ ∀ g : Frame, ∃ x, extractLoop fuel g d = extractLoop k { g with lastDuId := x } rest := by
+    d.length < fuel → f.nDu = 0 → extractLoop cfg fuel f d = (f1, .newFrame, rest) →
+    ∃ k, rest.length < k ∧ ∀ g : Frame, ∃ x, extractLoop cfg fuel g d = extractLoop cfg k { g with lastDuId := x } rest := by
   intro fuel
   induction fuel with
   | zero => intro f d f1 rest h; omega
@@ -59,7 +61,7 @@ theorem extractLoop_restart : ∀ (fuel : Nat) (f : Frame) (d : Bytes) (f1 : Fra
         · rw [if_neg hl] at h
           have hdrop : ((id :: len :: t).drop (len + 2)).length < fuel := by
             simp only [List.length_drop]; omega
-          cases hdu : dataUnit f (id :: len :: t) id len with
+          cases hdu : dataUnit cfg f (id :: len :: t) id len with
           | skip =>
             rw [hdu] at h
             obtain ⟨k, hk, hg⟩ := ih _ _ _ _ hdrop (by exact hn) h
@@ -74,7 +76,7 @@ theorem extractLoop_restart : ∀ (fuel : Nat) (f : Frame) (d : Bytes) (f1 : Fra
           | store f' =>
             rw [hdu] at h
             exfalso
-            have := extractLoop_ndu fuel { f' with lastDuId := id } ((id :: len :: t).drop (len + 2))
+            have := extractLoop_ndu (cfg := cfg) fuel { f' with lastDuId := id } ((id :: len :: t).drop (len + 2))
               (dataUnit_store_props f _ id len f' hdu).1
             exact this (congrArg (fun r => r.2.1) h)
           | fail f' r =>
@@ -84,7 +86,7 @@ theorem extractLoop_restart : ∀ (fuel : Nat) (f : Frame) (d : Bytes) (f1 : Fra
             exact ⟨fuel + 1, hfu, fun g => ⟨g.lastDuId, rfl⟩⟩
 
 theorem dataUnit_fail_ne_done (f : Frame) (d : Bytes) (id len : Nat) (f' : Frame) :
-    dataUnit f d id len ≠ .fail f' .done := by
+    dataUnit cfg f d id len ≠ .fail f' .done := by
   unfold dataUnit
   simp only []
   repeat' split
@@ -93,10 +95,10 @@ theorem dataUnit_fail_ne_done (f : Frame) (d : Bytes) (id len : Nat) (f' : Frame
 /-- the reset frame with a stale `last_data_unit_id` at a unit: -1 with the frame untouched, or the same
 as the reset frame, or the same failure with frames that differ in `last_data_unit_id` only -/
 theorem extractLoop_frX (k x : Nat) (rest : Bytes) (hk : rest.length < k) (h2 : 2 < rest.length) :
-    extractLoop k (frX x) rest = (frX x, .newFrame, rest) ∨
-    extractLoop k (frX x) rest = extractLoop k {} rest ∨
-    ∃ f2 r, r ≠ .done ∧ extractLoop k {} rest = (f2, r, rest) ∧
-      extractLoop k (frX x) rest = ({ f2 with lastDuId := x }, r, rest) := by
+    extractLoop cfg k (frX x) rest = (frX x, .newFrame, rest) ∨
+    extractLoop cfg k (frX x) rest = extractLoop cfg k {} rest ∨
+    ∃ f2 r, r ≠ .done ∧ extractLoop cfg k {} rest = (f2, r, rest) ∧
+      extractLoop cfg k (frX x) rest = ({ f2 with lastDuId := x }, r, rest) := by
   cases k with
   | zero => omega
   | succ k =>
@@ -113,7 +115,7 @@ theorem extractLoop_frX (k x : Nat) (rest : Bytes) (hk : rest.length < k) (h2 : 
         rcases dataUnit_frX x (id :: len :: t) id len with hs | hm
         · rw [hs]; exact Or.inl rfl
         · rw [hm]
-          cases hdu : dataUnit {} (id :: len :: t) id len with
+          cases hdu : dataUnit cfg {} (id :: len :: t) id len with
           | skip => exact Or.inr (Or.inl rfl)
           | store f' => exact Or.inr (Or.inl rfl)
           | fail f' r =>
@@ -127,11 +129,11 @@ Extracting the packet again from its start with a reset frame: -1 at `rest` agai
 or exactly what extracting from `rest` with a reset frame gives, or the same data unit error with
 frames that differ in `last_data_unit_id` only. -/
 theorem extract_restart (f : Frame) (d : Bytes) (f1 : Frame) (rest : Bytes) (hn : f.nDu = 0)
-    (h : extract f d = (f1, .newFrame, rest)) :
-    ∃ x, extract {} d = (frX x, .newFrame, rest) ∨ extract {} d = extract {} rest ∨
-      ∃ f2 rest2, extract {} rest = (f2, .err, rest2) ∧ extract {} d = ({ f2 with lastDuId := x }, .err, rest2) := by
+    (h : extract cfg f d = (f1, .newFrame, rest)) :
+    ∃ x, extract cfg {} d = (frX x, .newFrame, rest) ∨ extract cfg {} d = extract cfg {} rest ∨
+      ∃ f2 rest2, extract cfg {} rest = (f2, .err, rest2) ∧ extract cfg {} d = ({ f2 with lastDuId := x }, .err, rest2) := by
   have haft := extract_after_newFrame f {} f1 d rest ⟨rfl, rfl, rfl, rfl⟩ h
-  have hnf := extract_no_fault {} rest haft.1
+  have hnf := extract_no_fault (cfg := cfg) {} rest haft.1
   unfold extract at h
   by_cases hd : d.length < 2
   · rw [if_pos hd] at h; simp at h
@@ -139,9 +141,9 @@ theorem extract_restart (f : Frame) (d : Bytes) (f1 : Frame) (rest : Bytes) (hn 
     obtain ⟨_, _, _, _, _, h2, _, _⟩ := extractLoop_newFrame_rest _ _ _ _ _ h
     obtain ⟨k, hk, hg⟩ := extractLoop_restart _ _ _ _ _ (Nat.lt_succ_self _) hn h
     obtain ⟨x, hx⟩ := hg {}
-    have e1 : extract {} d = extractLoop k (frX x) rest := by
+    have e1 : extract cfg {} d = extractLoop cfg k (frX x) rest := by
       unfold extract; rw [if_neg hd]; exact hx
-    have e2 : extract {} rest = extractLoop k {} rest := by
+    have e2 : extract cfg {} rest = extractLoop cfg k {} rest := by
       unfold extract; rw [if_neg (by omega)]
       exact extractLoop_fuel _ _ _ _ (Nat.lt_succ_self _) hk
     refine ⟨x, ?_⟩
@@ -165,7 +167,7 @@ theorem extract_restart (f : Frame) (d : Bytes) (f1 : Frame) (rest : Bytes) (hn 
 
 /-- -1 is only said while no line of this packet was stored: the frame holds the lines it held at entry -/
 theorem extractLoop_newFrame_lines : ∀ (fuel : Nat) (f : Frame) (d : Bytes) (f1 : Frame) (rest : Bytes),
-    f.nDu = 0 → extractLoop fuel f d = (f1, .newFrame, rest) → f1.lines = f.lines := by
+    f.nDu = 0 → extractLoop cfg fuel f d = (f1, .newFrame, rest) → f1.lines = f.lines := by
   intro fuel
   induction fuel with
   | zero => intro f d f1 rest _ h; simp [extractLoop] at h
@@ -182,14 +184,14 @@ theorem extractLoop_newFrame_lines : ∀ (fuel : Nat) (f : Frame) (d : Bytes) (f
         by_cases hl : len + 2 > (id :: len :: t).length
         · rw [if_pos hl] at h; simp at h
         · rw [if_neg hl] at h
-          cases hdu : dataUnit f (id :: len :: t) id len with
+          cases hdu : dataUnit cfg f (id :: len :: t) id len with
           | skip =>
             rw [hdu] at h
             exact ih { f with lastDuId := id } _ _ _ hn h
           | store f' =>
             rw [hdu] at h
             exfalso
-            have := extractLoop_ndu fuel { f' with lastDuId := id } ((id :: len :: t).drop (len + 2))
+            have := extractLoop_ndu (cfg := cfg) fuel { f' with lastDuId := id } ((id :: len :: t).drop (len + 2))
               (dataUnit_store_props f _ id len f' hdu).1
             exact this (congrArg (fun r => r.2.1) h)
           | fail f' r =>
@@ -199,7 +201,7 @@ theorem extractLoop_newFrame_lines : ∀ (fuel : Nat) (f : Frame) (d : Bytes) (f
             exact dataUnit_fail_lines f _ id len _ _ hdu
 
 theorem extract_newFrame_lines (f : Frame) (d : Bytes) (f1 : Frame) (rest : Bytes) (hn : f.nDu = 0)
-    (h : extract f d = (f1, .newFrame, rest)) : f1.lines = f.lines := by
+    (h : extract cfg f d = (f1, .newFrame, rest)) : f1.lines = f.lines := by
   unfold extract at h
   split at h
   · simp at h
